@@ -838,6 +838,70 @@ def _closure(imports: dict, i: int) -> set:
 
 
 # ----------------------------------------------------------------------------------------------------------------------
+# direct queries to `_resolve_imported_file` (correspondence with lean/ESV/Macro/Import.lean on odd path spellings)
+# ----------------------------------------------------------------------------------------------------------------------
+_SEGS = ["zqa", "zqb", "zlib", "zx.exps", "zy.exps", "..", ".", "", "..zq", ".zh", "zqa", "zx.exps"]
+
+
+def _rand_path(rnd: random.Random, n_max: int = 4) -> str:
+    return "/".join(rnd.choice(_SEGS) for _ in range(rnd.randint(1, n_max)))
+
+
+def resolve_fuzz_case(rnd: random.Random) -> dict:
+    """a small tree (files and directories with names from a private alphabet) and queries with odd spellings: doubled and
+    trailing separators, '.' and '..' anywhere, names starting with dots, absolute/relative lookup paths, escapes above the root"""
+    files = sorted({posixpath.normpath(rnd.choice(["zqa", "zqb", "zlib", "zqa/zqb", "zlib/zqa", ""]) + "/" + rnd.choice(["zx.exps", "zy.exps"])).lstrip("/")
+                    for _ in range(rnd.randint(1, 5))})
+    dirs = sorted({rnd.choice(["zqa", "zqb/zqa", "zlib/zx.exps", "zqa/zqb/zlib", ".zh"]) for _ in range(rnd.randint(0, 3))})
+    dirs = [d for d in dirs if d not in files and not any(d.startswith(f + "/") for f in files)]
+    queries = []
+    for _ in range(rnd.randint(4, 10)):
+        d = ROOT + rnd.choice(["", "/", "//"]) + rnd.choice(["zqa", "zqa/zqb", "zqb/", "zlib/../zqa", "zqa//zqb", "."])
+        lookup = []
+        for _k in range(rnd.randint(0, 3)):
+            c = rnd.random()
+            if c < 0.6:
+                lookup.append(ROOT + "/" + _rand_path(rnd, 2))
+            elif c < 0.8:
+                lookup.append(_rand_path(rnd, 2))                 # relative lookup path
+            else:
+                lookup.append(rnd.choice(["", ".", "..", "/", ROOT + "//zlib/"]))
+        imports = []
+        for _k in range(rnd.choice([1, 1, 1, 2])):
+            c = rnd.random()
+            body = _rand_path(rnd)
+            if rnd.random() < 0.6:
+                # aim at an existing file (or directory), spelled oddly
+                segs = rnd.choice(files + dirs).split("/")
+                out_segs: list[str] = []
+                for sg in segs:
+                    r2 = rnd.random()
+                    if r2 < 0.15:
+                        out_segs += ["."]
+                    elif r2 < 0.3:
+                        out_segs += ["zqq", ".."]
+                    elif r2 < 0.4:
+                        out_segs += [""]
+                    out_segs.append(sg)
+                full = "/".join(out_segs)
+                if c >= 0.5 and lookup and rnd.random() < 0.7:
+                    # make some lookup path a prefix directory of the target
+                    k2 = rnd.randint(0, len(segs) - 1)
+                    lookup[rnd.randrange(len(lookup))] = ROOT + "/" + "/".join(segs[:k2]) + rnd.choice(["", "/"])
+                    full = "/".join(segs[k2:])
+                    if rnd.random() < 0.2:
+                        full = full.replace("/", "//", 1)
+                body = full
+                imports.append(rnd.choice(["./", "../", "./../", ".", ".."]) + body)
+            elif c < 0.5:
+                imports.append(ROOT + rnd.choice(["/", "//"]) + body)
+            else:
+                imports.append(body)
+        queries.append({"dir": d, "lookup": lookup, "imports": imports})
+    return {"files": files, "dirs": dirs, "queries": queries}
+
+
+# ----------------------------------------------------------------------------------------------------------------------
 # statically invalid single-file programs (must be rejected in the documented way)
 # ----------------------------------------------------------------------------------------------------------------------
 def error_cases(rnd: random.Random) -> list[dict]:
